@@ -51,7 +51,8 @@ def check_case(chk, c, found, maxperms):
             rep.update({"kind": "oracle", "observed": base[:2]})
             chk.violation(f"{name} raised {base[1]} on a finite matrix", rep)
             return
-        sc = max(float(A.maxabs(J)) * m, 1e-300)
+        sel = name in ("Krum", "TrimmedMean", "Mean", "Sum", "Constant")
+        sc = max(float(A.maxabs(J)) * (1 if sel else m), max(abs(x) for x in base[1]) if sel else 0.0, 1e-300)
         for sigma in perms[1:]:
             Js = [J[i] for i in sigma]
             o = A.impl_call(name, permute_params(name, p, sigma), Js, dt, seed=5)
